@@ -111,6 +111,14 @@ claim("C14", "other",
       "symbolic execution against a model file system (crash point and directory state as solver integers) + in-memory store round trip",
       "DESIGN.md section 1, C14")
 
+claim("C13", "other",
+      "About 35 public methods of Mps/Mpo/MpDm on operands with symbolic tensors/prefactors: operands represent their snapshot afterwards (solver identity), keep labels, "
+      "centre, direction; result shares no tensor buffer or label list with an operand; overwrite-the-result-then-observe-the-operands and vice versa. evolve_exact with "
+      "symbolic non-zero offset; propagation-and-compression evolve for real/imaginary time.",
+      "2-site chains (thorough 3); TDVP schemes not executed; canonicalise/compress are identity stubs inside the evolve harness; documented in-place operations exempt.",
+      "symbolic execution + snapshot/overwrite-and-observe obligations decided by z3; buffer overlap via np.shares_memory",
+      "DESIGN.md section 1, C13")
+
 for pid in ["C%02d" % i for i in range(1, 21)]:
     if pid not in CHECKS:
         NA[pid] = "check not built yet (build in progress; see DESIGN.md)"
